@@ -242,6 +242,7 @@ class Exec:
         for i in range(size):
             found = None
             for co, (csz, cv) in o.cells.items():
+                if not (isc(co) and isc(csz) and isc(off)): raise Violation('unsupported', 'internal: cell with a symbolic key in %s (%r %r %r)' % (o.name, co, csz, off), st)
                 if co <= off + i < co + csz:
                     bits = s.cell_bits(cv, csz); k = off + i - co
                     found = ((bits >> (8 * k)) & 0xff) if isc(bits) else z3.Extract(8 * k + 7, 8 * k, bits)
@@ -976,7 +977,7 @@ class Exec:
                 if tv.k == 'null': sel = -1 & 0xffffffff; break
                 v = tv
                 while v.k == 'cexpr': v = v.ops[0]
-                if s.exc_matches(st.exc[1], v.name): sel = s.gobj[v.name]; break
+                if s.exc_matches(st.exc[1], v.name, st): sel = s.gobj[v.name]; break
             if sel == 0 and not x['cleanup']:
                 fr.idx -= 1
                 return s.unwind(st)
@@ -986,20 +987,42 @@ class Exec:
         else:
             raise Violation('unsupported', 'instruction ' + op, st)
 
-    def exc_matches(s, thrown, want):
+    def exc_matches(s, thrown, want, st=None):
+        """is `want` the thrown type or one of its public bases at offset 0 (Itanium typeinfo objects: __si_class_type_info has one base in
+        slot 2, __vmi_class_type_info has flags, count and (base, offset_flags) pairs; a base at a non-zero offset would need a pointer
+        adjustment of the caught object and is reported as unsupported)"""
         from ir2c import STD_EXC_BASE
-        t = thrown
-        for _ in range(8):
-            if t == want: return True
+        def bases(t):
             g = s.m.globals.get(t)
-            nxt = None
             if g is not None and g['init'] is not None and g['init'].k == 'agg' and len(g['init'].elems) >= 3:
-                b = g['init'].elems[2]
-                while b.k == 'cexpr': b = b.ops[0]
-                if b.k == 'global': nxt = b.name
-            if nxt is None: nxt = STD_EXC_BASE.get(t)
-            if nxt is None: return False
-            t = nxt
+                el = g['init'].elems
+                def gname(b):
+                    while b.k == 'cexpr': b = b.ops[0]
+                    return b.name if b.k == 'global' else None
+                if len(el) == 3:
+                    n = gname(el[2]); return [(n, 0)] if n else []
+                out = []; flat = []
+                def walk(e):
+                    if e.k == 'agg':
+                        for q in e.elems: walk(q)
+                    else: flat.append(e)
+                for e in el[4:]: walk(e)
+                for i in range(0, len(flat) - 1, 2):
+                    n = gname(flat[i]); of = flat[i + 1]
+                    off = (of.val >> 8) if getattr(of, 'k', None) == 'int' else None
+                    if n: out.append((n, off))
+                return out
+            nb = STD_EXC_BASE.get(t)
+            return [(nb, 0)] if nb else []
+        seen = set(); todo = [(thrown, 0)]
+        while todo and len(seen) < 64:
+            t, off = todo.pop()
+            if t == want:
+                if off != 0: raise Violation('unsupported', 'catch of a base class at a non-zero offset (%s in %s)' % (want, thrown), st)
+                return True
+            if t in seen: continue
+            seen.add(t)
+            for n, o in bases(t): todo.append((n, off if o == 0 else (o if o is not None else -1)))
         return False
 
     def unwind(s, st):
@@ -1202,6 +1225,22 @@ class Exec:
             if n == 0: return 0
             src = a[1]; dst = a[0]
             s.check_access(st, src, n, 'memcpy-src'); s.check_access(st, dst, n, 'memcpy-dst')
+            if not (isc(src.off) and isc(dst.off)):
+                # symbolic source/destination offset: one path per feasible pair of offsets (model-guided enumeration)
+                def B(v): return z3.BitVecVal(v, 64) if isc(v) else v
+                feas = []; block = []
+                while True:
+                    m = s.sat(st, z3.And(*block) if block else None)
+                    if m is None: break
+                    so_ = src.off if isc(src.off) else m.eval(src.off, model_completion=True).as_long()
+                    do_ = dst.off if isc(dst.off) else m.eval(dst.off, model_completion=True).as_long()
+                    cnd = z3.And(B(src.off) == z3.BitVecVal(so_, 64), B(dst.off) == z3.BitVecVal(do_, 64))
+                    feas.append((cnd, so_, do_)); block.append(z3.Not(cnd))
+                    if len(feas) > 64: raise Violation('unsupported', 'memcpy with more than 64 feasible offset pairs', st)
+                if not feas: return 'infeasible'
+                def again(state, so_, do_): s.builtin(state, state.frames[-1], name, [Ptr(dst.obj, do_), Ptr(src.obj, so_)] + list(a[2:]), x, work)
+                for cnd, so_, do_ in feas[:-1]: s.fork_ret(st, x, cnd, 0, work, post=lambda o, u=so_, v=do_: again(o, u, v))
+                cnd, so_, do_ = feas[-1]; s.assume(st, cnd); src = Ptr(src.obj, so_); dst = Ptr(dst.obj, do_)
             so = st.objs[src.obj]
             # copy cells fully inside the range, bytes otherwise
             # fast path: preserve whole cells
@@ -1458,6 +1497,12 @@ class Exec:
             st.exc = (eobj, ti[0] if ti else '_ZTISt9exception')
             if os.environ.get('VERIF_DEBUG_THROW'): sys.stderr.write('THROW %s at %s\n' % (name, [f.fn for f in st.frames]))
             raise Throw()
+        if name == '_ZSt17current_exceptionv':
+            # std::current_exception(): the exception object being handled (exception_ptr holds one pointer); reference counting is not modelled
+            cur = st.exc[0] if getattr(st, 'exc', None) else NULL
+            s.store_val(st, a[0], PTR(I8), cur); return 0
+        if name in ('_ZNSt15__exception_ptr13exception_ptr9_M_addrefEv', '_ZNSt15__exception_ptr13exception_ptr10_M_releaseEv'): return 0
+        if name in ('_ZNSt16nested_exceptionD2Ev', '_ZNSt16nested_exceptionD1Ev'): return 0
         if name == '__dynamic_cast':
             # dynamic type from the object's vptr (Itanium ABI: typeinfo pointer one word in front of the address point, offset-to-top two words);
             # single-inheritance chains only (the __si_class_type_info base links that exception matching also walks)
@@ -1492,6 +1537,7 @@ class Exec:
             # std exception constructed by library code we do not execute: give it a vtable whose what() returns an empty message
             s.store_val(st, a[0], PTR(I8), Ptr(s.exc_vtable(st), 0)); return 0
         if re.match(r'_ZNSt\d+(runtime_error|invalid_argument|logic_error|out_of_range|length_error|domain_error|range_error|overflow_error|underflow_error)D[012]E', name): return 0
+        if name in ('_ZNSt9exceptionD2Ev', '_ZNSt9exceptionD1Ev'): return 0
         if name == '__verif_exc_dtor': return 0
         if name == '__verif_exc_what':
             eo = getattr(st, 'exc_msg', None)
